@@ -3,7 +3,7 @@ import copy
 import itertools
 import re
 
-from harness.core import Property
+from harness.core import Property, CaseTimeout
 from harness.props import markup_common as mc
 from harness.props.markup_common import S, B, I, MAYBE
 
@@ -93,9 +93,56 @@ def lookup(levels, key, default):
     return default
 
 
+# The documentation's table (docs/source/markup.rst, "Transformations"): per transform its default, the tags it acts
+# on by itself, the attribute it writes and whether it needs a bound element.
+DOC = {
+    "auto_name": {"attr": "name", "tags": AUTO_TAGS["auto_name"], "needs_bind": True},
+    "auto_domid": {"attr": "id", "tags": AUTO_TAGS["auto_domid"], "needs_bind": False},
+    "auto_for": {"attr": "for", "tags": AUTO_TAGS["auto_for"], "needs_bind": True},
+    "auto_tabindex": {"attr": "tabindex", "tags": AUTO_TAGS["auto_tabindex"], "needs_bind": False},
+}
+
+
+def applies(option, tag, forced, given):
+    """THE APPLIES TABLE: once the option resolves to on, the attribute is generated iff it is forced on the tag, or
+    the tag is one of the transform's own tags and the author did not give the attribute"""
+    return forced or (not given and tag in DOC[option]["tags"])
+
+
+def value_effect(tag, attrs, contents, u, forced):
+    """documented per-tag meaning of auto-value ("the semantics of value vary by tag"); returns the new text or None"""
+    if tag == "input":
+        kind = attrs.get("type", "")
+        if kind in ("checkbox", "radio"):
+            # checked iff value= matches the element; a checkbox without value= is left alone (bind is not a Boolean
+            # here), a radio without value= counts as value=""
+            cur = attrs.get("value") if kind == "checkbox" else attrs.get("value", "")
+            if cur == u:
+                attrs["checked"] = "checked"
+            else:
+                attrs.pop("checked", None)
+            return None
+        if kind in ("password", "file", "image"):
+            if forced:
+                attrs["value"] = u          # "No value is added unless forced"
+            return None
+    elif tag == "option":
+        lit = attrs["value"] if "value" in attrs else (contents.strip() if contents is not None else "")
+        if lit == u:
+            attrs["selected"] = "selected"
+        else:
+            attrs.pop("selected", None)
+        return None
+    elif tag == "textarea":
+        return u if (contents is None or forced) else None     # explicit contents are preferred unless forced
+    if "value" not in attrs or forced:
+        attrs["value"] = u
+    return None
+
+
 def expected_tag(op, levels, resolver, tb):
-    """Expected attributes / text of one tag call under the documented behaviour of the five transforms, for
-    the given option resolver.  Returns (attrs dict, text or None (= not checked), tabindex_handed_out or None)."""
+    """Expected attributes / text of one tag call: option resolution (`resolver`) + the documentation's applies table.
+    Returns (tag, attrs dict, text, tabindex handed out or None).  tb = generator["tabindex"] before the call."""
     tag = op["tag"].lower() if op["via"] == "tag" else op["tag"]
     kw = {}
     contents = None
@@ -108,76 +155,61 @@ def expected_tag(op, levels, resolver, tb):
     bind = op["bind"]
     dec = {o: resolver(o, kw.get(o), levels) for o in FIVE}
     text = contents if contents is not None else ""
-    # name
-    on, forced = dec["auto_name"]
-    if on and bind is not None and bind["name"]:
-        if forced or ("name" not in attrs and tag in AUTO_TAGS["auto_name"]):
-            attrs["name"] = bind["name"]
-    # value
-    on, forced = dec["auto_value"]
-    if on and bind is not None and (forced or tag in AUTO_TAGS["auto_value"]):
-        u = bind["u"]
-        if tag == "input":
-            sub = attrs.get("type", "")
-            if sub in ("radio", "checkbox"):
-                cur = attrs.get("value") if sub == "checkbox" else attrs.get("value", "")
-                if cur == u:
-                    attrs["checked"] = "checked"
-                else:
-                    attrs.pop("checked", None)
-            elif sub in ("password", "file", "image"):
-                if forced:
-                    attrs["value"] = u
-            elif "value" not in attrs or forced:
-                attrs["value"] = u
-        elif tag == "option":
-            val = attrs["value"] if "value" in attrs else (contents.strip() if contents is not None else "")
-            if val == u:
-                attrs["selected"] = "selected"
-            else:
-                attrs.pop("selected", None)
-        elif tag == "textarea":
-            if contents is None or forced:
-                text = u
-        elif "value" not in attrs or forced:
-            attrs["value"] = u
     fmt = lookup(levels, "domid_format", S("f_%s"))["v"]
 
     def raw_id():
+        # documented: ids derive from the bound element's flattened name (or the name attribute when unbound);
+        # checkbox/radio inputs and labels given a value get the sanitised value appended
         basis = bind["name"] if bind is not None else attrs.get("name")
         if not basis:
             return None
         suffix = None
-        if tag == "input" and attrs.get("type") in ("checkbox", "radio"):
-            suffix = ID_INVALID.sub("", attrs.get("value", ""))
-        if tag == "label":
+        if (tag == "input" and attrs.get("type") in ("checkbox", "radio")) or tag == "label":
             suffix = ID_INVALID.sub("", attrs.get("value", ""))
         return basis + "_" + suffix if suffix else basis
-    # id
-    on, forced = dec["auto_domid"]
-    if on and (forced or ("id" not in attrs and tag in AUTO_TAGS["auto_domid"])):
-        raw = raw_id()
-        if raw:
-            attrs["id"] = fmt % raw
-    # for
-    on, forced = dec["auto_for"]
-    if on and bind is not None and (forced or ("for" not in attrs and tag in AUTO_TAGS["auto_for"])):
-        raw = raw_id()
-        if raw:
-            attrs["for"] = fmt % raw
-    if tag == "label":
-        attrs.pop("value", None)
-    # tabindex
+
     handed = None
-    on, forced = dec["auto_tabindex"]
-    if on:
-        # tb: the tabindex value in force, read from generator["tabindex"] before the call
-        if tb != 0 and (forced or ("tabindex" not in attrs and tag in AUTO_TAGS["auto_tabindex"])):
-            attrs["tabindex"] = str(tb)
-            handed = tb
+    for option in FIVE:                      # the order in which the transforms run
+        on, forced = dec[option]
+        if option == "auto_value":
+            if on and bind is not None and (forced or tag in AUTO_TAGS["auto_value"]):
+                new_text = value_effect(tag, attrs, contents, bind["u"], forced)
+                if new_text is not None:
+                    text = new_text
+            continue
+        doc = DOC[option]
+        if on and (bind is not None or not doc["needs_bind"]) and applies(option, tag, forced, doc["attr"] in attrs):
+            if option == "auto_name":
+                if bind["name"]:
+                    attrs["name"] = bind["name"]
+            elif option == "auto_tabindex":
+                if tb != 0:                  # "A tabindex value of 0 will block the assignment"
+                    attrs["tabindex"] = str(tb)
+                    handed = tb
+            else:
+                raw = raw_id()
+                if raw:
+                    attrs[doc["attr"]] = fmt % raw
+        if option == "auto_for" and tag == "label":
+            attrs.pop("value", None)         # a label's value= only selects the control it points to
     if tag in VOIDS:
         text = ""
     return tag, attrs, text, handed
+
+
+def int_valued_option(op, levels):
+    """an option (in transform order) not decided on the tag whose value in force is an int"""
+    kw = {k.rstrip("_"): v for k, v in op["kwargs"]}
+    for k in OPTION_KEYS:
+        tv = kw.get(k)
+        if tv is not None and trool(tv) is not None:
+            continue
+        for lv in levels:
+            if k in lv:
+                if lv[k]["t"] == "i":
+                    return k
+                break
+    return None
 
 
 def snapshot(gen):
@@ -213,6 +245,8 @@ def apply_op(gen, op):
             raise ValueError(kind)
     except AssertionError:
         raise
+    except CaseTimeout:
+        raise
     except Exception as e:  # noqa
         return type(e).__name__, None
     return None, None
@@ -236,6 +270,8 @@ def run_reference(case, resolver=spec_resolve, stop_before=None):
     bad_init = [k for k, _ in init["settings"] if k not in KNOWN_KEYS]
     try:
         gen = make_generator(init)
+    except CaseTimeout:
+        raise
     except Exception as e:  # noqa
         cls = type(e).__name__
         want = "TypeError" if init["markup"] not in ("xml", "xhtml", "html") else ("KeyError" if bad_init else None)
@@ -291,6 +327,12 @@ def run_reference(case, resolver=spec_resolve, stop_before=None):
                 if after != want:
                     fails.append({"clause": "end-restores", "op": i, "expected": want, "observed": after})
         elif kind == "tag":
+            bad = int_valued_option(op, levels)
+            if bad is not None:
+                # an int stored for an option (outside the declared domain): resolving it raises AttributeError
+                if err != "AttributeError":
+                    fails.append({"clause": "tag-renders", "op": i, "expected": "AttributeError (int value of %s)" % bad, "observed": err})
+                continue
             if err is not None:
                 fails.append({"clause": "tag-renders", "op": i, "expected": "markup", "observed": err})
                 continue
@@ -306,10 +348,11 @@ def run_reference(case, resolver=spec_resolve, stop_before=None):
             if got != attrs or el["tag"] != tag or el["text"] != text:
                 fails.append({"clause": "resolution", "op": i, "expected": {"tag": tag, "attrs": attrs, "text": text},
                               "observed": el})
-            if handed is not None and handed > 0 and got.get("tabindex") == str(handed):
+            if handed is not None and got.get("tabindex") == str(handed):
                 # an automatically handed-out value: strictly above the previous one of this scope
                 if scopes[-1] and not scopes[-1][-1] < handed:
-                    fails.append({"clause": "tabindex-increasing", "op": i, "expected": "> %d" % scopes[-1][-1], "observed": handed})
+                    fails.append({"clause": "tabindex-increasing", "op": i, "expected": "> %d" % scopes[-1][-1], "observed": handed,
+                                  "previous": scopes[-1][-1]})
                 scopes[-1].append(handed)
     # drain: exactly the open blocks can be ended
     opened = 0
@@ -329,12 +372,16 @@ def run_reference(case, resolver=spec_resolve, stop_before=None):
 
 # ------------------------------------------------------------------ generation
 
-def _rand_settings(rng, allow_unknown=True):
+def _rand_settings(rng, allow_unknown=True, allow_int=False):
     out = []
     used = set()
     for _ in range(rng.choice([0, 1, 1, 1, 2, 2, 3])):
         r = rng.random()
-        if r < 0.72:
+        if allow_int and r < 0.02:
+            # outside the declared domain (option values are str/bool/Maybe): stored raw by begin/update/[]=, makes
+            # the next tag call raise AttributeError — after the tabindex counter write when it is auto_filter
+            k, v = rng.choice(["auto_filter", "auto_filter", "auto_name"]), I(5)
+        elif r < 0.72:
             k = rng.choice(OPTION_KEYS if rng.random() < 0.85 else ["auto_name", "auto_value"])
             v = rng.choice(TROOL_VALUES)
         elif r < 0.82:
@@ -384,7 +431,7 @@ def _rand_case(rng):
     for _ in range(rng.choice([1, 2, 3, 4, 6, 8, 12])):
         r = rng.random()
         if r < 0.2 and depth < 5:
-            s = _rand_settings(rng, allow_unknown=rng.random() < 0.15)
+            s = _rand_settings(rng, allow_unknown=rng.random() < 0.15, allow_int=True)
             ops.append({"op": "begin", "settings": s})
             if all(k in KNOWN_KEYS for k, _ in s):
                 depth += 1
@@ -395,11 +442,11 @@ def _rand_case(rng):
         elif r < 0.47:
             ops.append({"op": "set", "settings": _rand_settings(rng, allow_unknown=rng.random() < 0.15)})
         elif r < 0.52:
-            s = _rand_settings(rng, allow_unknown=rng.random() < 0.15)
+            s = _rand_settings(rng, allow_unknown=rng.random() < 0.15, allow_int=True)
             if s:
                 ops.append({"op": "setitem", "key": s[0][0], "value": s[0][1]})
         elif r < 0.57:
-            ops.append({"op": "update", "settings": _rand_settings(rng, allow_unknown=rng.random() < 0.15)})
+            ops.append({"op": "update", "settings": _rand_settings(rng, allow_unknown=rng.random() < 0.15, allow_int=True)})
         else:
             ops.append(_rand_tag(rng))
     if not any(o["op"] == "tag" for o in ops):
@@ -430,11 +477,29 @@ class C19(Property):
         "Flatland.C19.Proofs.unbalanced_end_raises",
         "Flatland.C19.Proofs.init_depth",
         "Flatland.C19.Proofs.tabindex_increasing",
+        "Flatland.C19.Proofs.scope_tabindex_increasing",
+        "Flatland.C19.Proofs.prepareTag_handed",
+        "Flatland.C19.Proofs.codeResolve_ne_rule",
+        "Flatland.C19.Proofs.transformName_decision",
+        "Flatland.C19.Proofs.transformDomid_skips",
+        "Flatland.C19.Proofs.transformDomid_applies",
+        "Flatland.C19.Proofs.transformFor_skips",
+        "Flatland.C19.Proofs.transformFor_applies",
+        "Flatland.C19.Proofs.transformTabindex_skips",
+        "Flatland.C19.Proofs.transformTabindex_applies",
+        "Flatland.C19.Proofs.transformValue_skips",
+        "Flatland.C19.Proofs.label_value_dropped",
+        "Flatland.C19.Proofs.afterFailedTag_ctx",
     ]
     generated_obligations = ["Flatland.C19.Proofs.defaults_ok"]
     level_text = "proof"
-    level_note = ("partial: the resolution theorem needs NoShadowingAuto (KF-C19-a; the unrestricted statement is refuted by "
-                  "C19_full_fails); filters and the per-tag 'applies' table of the value transform rest on correspondence")
+    level_note = ("partial: (1) the resolution theorem needs noShadowingAuto — now exactly the condition under which code and "
+                  "rule agree on the level readings (codeResolve_ne_rule: where it fails they differ), refuted in general by "
+                  "C19_full_fails (KF-C19-a); (2) resolution is proved for _pop_toggle's return value; decision => attribute is "
+                  "proved against the applies table for name (equation), id/for/tabindex (skips + applies) and the skip half of "
+                  "value; the per-tag value semantics (checked/selected/textarea) are C12 theorems for the non-forced path and "
+                  "otherwise rest on correspondence + oracle; (3) tabindex: positive counters only (KF-C19-b); filters not "
+                  "modelled beyond consuming auto_filter")
     technique = ("invariant (flat-copied frames = levels replayed) by induction over histories; decision-table resolver; "
                  "tables YES/NO/MAYBE, _default_context, _auto_tags regenerated from the source")
     trusted_base = [
@@ -442,7 +507,8 @@ class C19(Property):
         "str.lower() replaced by ASCII lower-casing for YES/NO/MAYBE lookups (equivalence checked by the extractor over all code points)",
     ]
     assumptions = [
-        "option values are str, bool or Maybe; tabindex is an int; domid_format is a str with %s / %% conversions only",
+        "option values are str, bool or Maybe (an int stored raw by begin/update/[]= is generated for auto_filter/auto_name only, "
+        "to exercise a tag call that raises after the counter write); tabindex is an int; domid_format is a str with %s / %% only",
         "Context.push/pop are not called directly (only through begin/end)",
     ]
     rule = ("histories of 1-12 Generator calls: begin/end/set/[]=/update (nesting depth <= 5, unbalanced end() and unknown option "
@@ -454,6 +520,7 @@ class C19(Property):
                        "{absent,on,off,auto} for each of the five auto_* options on a tag the transform applies to, with and "
                        "without a pre-existing attribute")
     quick_n = 40000
+    case_timeout = 60      # the machine is shared: a stalled worker must not look like a hang of the library
     thorough_n = 400000
 
     # ------------------------------------------------------------------ cases
@@ -475,6 +542,11 @@ class C19(Property):
                       "kwargs": [["name", S("pre")], ["auto_name", S("on")]]}]},
             {"init": {"markup": "xhtml", "settings": [["auto_tabindex", B(True)], ["tabindex", I(5)]]},
              "ops": [inp, {"op": "begin", "settings": []}, inp, inp, {"op": "end"}, inp, {"op": "end"}]},
+            # a tag call that raises AFTER the tabindex counter write (int stored for auto_filter): the counter stays advanced
+            {"init": {"markup": "xhtml", "settings": [["auto_tabindex", B(True)], ["tabindex", I(5)]]},
+             "ops": [{"op": "setitem", "key": "auto_filter", "value": I(5)}, inp, {"op": "setitem", "key": "auto_filter", "value": B(False)}, inp]},
+            # non-positive counters are handed out unchanged (tabindex=-1 twice): documented HTML meaning, outside "increasing"
+            {"init": {"markup": "xhtml", "settings": [["auto_tabindex", B(True)], ["tabindex", I(-1)]]}, "ops": [inp, inp]},
         ]
 
     def exhaustive(self, tier):
@@ -503,6 +575,8 @@ class C19(Property):
     def run_impl(self, case):
         try:
             gen = make_generator(case["init"])
+        except CaseTimeout:
+            raise
         except Exception as e:  # noqa
             return {"init_err": type(e).__name__, "steps": [], "open": None}
         obs = {"init_err": None, "init_ctx": snapshot(gen), "steps": []}
@@ -527,12 +601,19 @@ class C19(Property):
         predicate (innermost explicit setting is auto-like, an outer level says on/off, no tag-level on/off) AND the
         observed attributes are exactly what the documented behaviour gives once those options fall to the built-in
         default.  Any other deviation is not explained by the finding and stays a violation."""
+        if failure.get("clause") == "tabindex-increasing":
+            # KF-C19-b: a non-positive counter is handed out unchanged by every call (documented for 0 = "blocks";
+            # negative values keep their HTML meaning "not reachable by tabbing")
+            h, prev = failure.get("observed"), failure.get("previous")
+            return "KF-C19-b" if isinstance(h, int) and h < 0 and h == prev else None
         if failure.get("clause") != "resolution" or not isinstance(failure.get("op"), int):
             return None
         i = failure["op"]
         # replay the prefix to get the levels and the tabindex in force just before op i
         try:
             _, levels, tb = run_reference(case, stop_before=i)
+        except CaseTimeout:
+            raise
         except Exception:  # noqa
             return None
         op = case["ops"][i]
